@@ -1,7 +1,9 @@
 #!/usr/bin/env python3
 """Run ord's test suite with the verif feature OFF and compare with /root/.vp/BASELINE.json stable_pass."""
 import json, re, subprocess, sys
-out = subprocess.run("cd /repo && cargo test --workspace --no-fail-fast --offline 2>&1", shell=True,
+# wallet::resume::resume_suspended can hang forever on a loaded machine: it is run on its own, under a timeout
+out = subprocess.run("cd /repo && timeout 7200 cargo test --workspace --no-fail-fast --offline -- --skip resume_suspended 2>&1; "
+                     "timeout 900 cargo test --offline -p ord --test integration resume_suspended 2>&1", shell=True,
                      stdout=subprocess.PIPE, text=True).stdout
 open('/verif/work/baseline_full.log', 'w').write(out)
 b = json.load(open('/root/.vp/BASELINE.json'))
